@@ -27,6 +27,145 @@ def level_nodes(cfg):
     return acc
 
 
+# --------------------------------------------------------------------------
+# object-graph cases: real merge_dicts / copy_dict / Config.clone on dicts that
+# deliberately share sub-dict objects; the sharing relation afterwards is
+# compared with the heap model (coq/Model/HeapMerge.v)
+# --------------------------------------------------------------------------
+def gen_heap_case(rng):
+    sch = cc.schema(rng, depth=rng.choice([2, 3, 3]), width=rng.choice([2, 3]), p_section=0.55)
+    nodes, spath = [], []
+
+    def alloc(inst, sp, p_empty):
+        a = len(nodes)
+        nodes.append([])
+        spath.append(sp)
+        items = []
+        for k, v in inst.items():
+            if isinstance(v, dict):
+                sub = {} if rng.random() < p_empty else v
+                items.append([k, {"ref": alloc(sub, sp + (k,), p_empty)}])
+            else:
+                items.append([k, {"leaf": gt.jsonable(v)}])
+        nodes[a] = items
+        return a
+
+    def reach(a, seen=None):
+        seen = set() if seen is None else seen
+        if a in seen:
+            return seen
+        seen.add(a)
+        for _, v in nodes[a]:
+            if "ref" in v:
+                reach(v["ref"], seen)
+        return seen
+    kind = rng.choices(["merge", "copy", "clone"], [6, 2, 2])[0]
+    nroots = {"merge": 2, "copy": 1, "clone": 3}[kind]
+    roots = [alloc(cc.instance(rng, sch, rng.choice([0.6, 0.9])), (), rng.choice([0.0, 0.3, 0.5]) if i == 0 else 0.05)
+             for i in range(nroots)]
+    # sharing: redirect some references to another node (same schema position mostly)
+    for _ in range(rng.choice([0, 1, 1, 2, 3])):
+        edges = [(a, i) for a, n in enumerate(nodes) for i, (_, v) in enumerate(n) if "ref" in v]
+        if not edges:
+            break
+        a, i = rng.choice(edges)
+        old = nodes[a][i][1]["ref"]
+        same = [y for y in range(len(nodes)) if y != old and spath[y] == spath[old]]
+        cands = same if ((same and rng.random() < 0.8) or kind == "clone") else \
+            [y for y in range(len(nodes)) if y != old]
+        if not cands:
+            continue
+        y = rng.choice(cands)
+        if a in reach(y):          # would close a cycle
+            continue
+        nodes[a][i][1] = {"ref": y}
+    if kind == "merge":
+        op = ["merge", roots[0], roots[1]]
+        if rng.random() < 0.05:
+            op = ["merge", roots[0], roots[0]]
+    elif kind == "copy":
+        op = ["copy", roots[0]]
+    else:
+        op = ["clone", roots]
+    return {"kind": "heap", "h0": nodes, "op": op}
+
+
+def run_heap(case):
+    from invoke.config import merge_dicts, copy_dict
+    h0 = case["h0"]
+    objs = [dict() for _ in h0]
+    for i, node in enumerate(h0):
+        for k, v in node:
+            objs[i][k] = objs[v["ref"]] if "ref" in v else gt.unjson(v["leaf"])
+    op = case["op"]
+    res = []
+    sess = None
+    try:
+        if op[0] == "merge":
+            merge_dicts(objs[op[1]], objs[op[2]])
+        elif op[0] == "copy":
+            res = [copy_dict(objs[op[1]])]
+        else:
+            sess = cc.Session({"fs": [], "init": {}, "ops": []})
+            import os
+            kw = {"system_prefix": os.path.join(sess.root, "sys") + os.sep,
+                  "user_prefix": os.path.join(sess.root, "usr") + os.sep + ".", "lazy": True,
+                  "defaults": objs[op[1][0]], "overrides": objs[op[1][2]]}
+            cfg = cc.make_class()(**kw)
+            cfg.load_collection(objs[op[1][1]], merge=False)
+            cl = cfg.clone()
+            res = [cl._defaults, cl._collection, cl._overrides]
+    except Exception as e:
+        return {"err": type(e).__name__}
+    finally:
+        if sess is not None:
+            sess.close()
+    # the graph afterwards: old objects keep their address, new ones are numbered on discovery
+    index = {id(o): i for i, o in enumerate(objs)}
+    all_objs = list(objs)
+
+    def visit(o):
+        for v in list(o.values()):
+            if isinstance(v, dict):
+                if id(v) not in index:
+                    index[id(v)] = len(all_objs)
+                    all_objs.append(v)
+                    visit(v)
+    for o in list(objs):
+        visit(o)
+    for r in res:
+        if id(r) not in index:
+            index[id(r)] = len(all_objs)
+            all_objs.append(r)
+        visit(r)
+    h1 = [[[k, {"ref": index[id(v)]} if isinstance(v, dict) else {"leaf": gt.jsonable(v)}]
+           for k, v in o.items()] for o in all_objs]
+    return {"h1": h1, "res": [index[id(r)] for r in res]}
+
+
+def c_heap(h):
+    return ct.lst([ct.lst([ct.pair(ct.s(k), "(HRef %s)" % ct.n(v["ref"]) if "ref" in v
+                                    else "(HLeaf %s)" % ct.value(gt.unjson(v["leaf"]))) for k, v in node])
+                   for node in h])
+
+
+def c_hop(op):
+    if op[0] == "merge":
+        return "(HMerge %s %s)" % (ct.n(op[1]), ct.n(op[2]))
+    if op[0] == "copy":
+        return "(HCopy %s)" % ct.n(op[1])
+    return "(HClone %s)" % ct.lst([ct.n(r) for r in op[1]])
+
+
+def heap_shared(h):
+    indeg = {}
+    for node in h:
+        for _, v in node:
+            if "ref" in v:
+                indeg[v["ref"]] = indeg.get(v["ref"], 0) + 1
+    return any(c > 1 for c in indeg.values())
+
+
 class C11(Prop):
     id = "C11"
     corr_module = "Corr.C11Corr"
@@ -37,6 +176,9 @@ class C11(Prop):
             "state, then clone() -- 35% into a subclass whose global defaults overlap the original's -- then "
             "0-10 operations on either object (held proxies of the original stay usable); observed: the ten "
             "levels and both deep views at the clone, both deep views after every later step, and a snapshot "
+            "[every third case instead: an object graph (dicts deliberately sharing sub-dict objects, empty "
+            "placeholder sections), one call of the real merge_dicts / copy_dict / Config.clone, and the object "
+            "graph afterwards, compared with the heap model up to the numbering of new objects] "
             "comparison of every caller-held source dict plus a walk proving original and clone share no "
             "dict object.  Non-trivial = the history before the clone contains a deletion or a nested "
             "write and at least one operation follows the clone")
@@ -123,7 +265,10 @@ class C11(Prop):
 
     def generate(self, rng, tier, n):
         for i in range(n):
-            yield self.gen_one(rng, i)
+            if i % 3 == 2:
+                yield gen_heap_case(rng)
+            else:
+                yield self.gen_one(rng, i)
 
     def enumerate_small(self, tier):
         init = {"defaults": {"a": {"x": 0, "y": 0}, "k": 1}, "overrides": {"o": {"p": 1}}, "proj": None,
@@ -135,6 +280,17 @@ class C11(Prop):
                  [[True, ["del", "item", [], "a"]]], [[False, ["del", "item", ["o"], "p"]]],
                  [[True, ["set", "item", ["o"], "p", 7]]], [[False, ["load_overrides", {"o": {"p": 3}}]]],
                  [[False, ["via", 0, ["set", "item", [], "w", 1]]]], [[True, ["clear", "item", ["a"]]]]]
+        L = lambda v: {"leaf": v}
+        R = lambda a: {"ref": a}
+        # base {s: {}(placeholder), t: T}, updates {s: U1, t: U1 (shared)}, ...
+        for basenode in ([["s", R(2)], ["t", R(3)]], [["s", R(2)]], []):
+            for s_node in ([], [["x", L(1)]]):
+                for shared in (True, False):
+                    h0 = [basenode, [["s", R(4)], ["t", R(4 if shared else 5)]], s_node, [["y", L(2)]],
+                          [["x", L(7)], ["z", L(8)]], [["x", L(9)]]]
+                    yield {"kind": "heap", "h0": h0, "op": ["merge", 0, 1]}
+                    yield {"kind": "heap", "h0": h0, "op": ["copy", 1]}
+                    yield {"kind": "heap", "h0": h0, "op": ["clone", [0, 1, 3]]}
         intos = [None, {"new": 1}, {"k": 5, "a": {"q": 1}}]
         for pre in pres:
             for into in intos:
@@ -145,6 +301,8 @@ class C11(Prop):
 
     # -- implementation --------------------------------------------------------
     def run_impl(self, case):
+        if case.get("kind") == "heap":
+            return run_heap(case)
         rng = random.Random(1)
         s = cc.Session({"fs": case["fs"], "init": case["init"], "ops": []}, keep_sources=True)
         try:
@@ -196,6 +354,10 @@ class C11(Prop):
             s.close()
 
     def to_coq(self, case, obs):
+        if case.get("kind") == "heap":
+            o = "(HErr %s)" % ct.err(obs["err"]) if "err" in obs else \
+                "(HOk %s %s)" % (c_heap(obs["h1"]), ct.lst([ct.n(r) for r in obs["res"]]))
+            return "(mkh %s %s %s)" % (c_heap(case["h0"]), c_hop(case["op"]), o)
         if "noobject" in obs:
             o = "(ONoObject %s)" % ct.err(obs["noobject"])
         elif "aborted" in obs:
@@ -216,6 +378,8 @@ class C11(Prop):
 
     # -- statistics / findings ---------------------------------------------------
     def nontrivial(self, case, obs):
+        if case.get("kind") == "heap":
+            return "h1" in obs and (heap_shared(case["h0"]) or any(not n for n in case["h0"]))
         names = [(o[2] if o[0] == "via" else o)[0] for o in case["pre"]]
         nested = any((o[2] if o[0] == "via" else o)[0] in ("set", "update", "setdefault")
                      and ((o[2] if o[0] == "via" else o)[2] or o[0] == "via") for o in case["pre"])
@@ -223,13 +387,16 @@ class C11(Prop):
             (nested or any(n in ("del", "pop", "popitem", "clear") for n in names))
 
     def classify(self, case, obs):
+        if case.get("kind") == "heap":
+            return "heap:%s%s%s" % (case["op"][0], "+shared" if heap_shared(case["h0"]) else "",
+                                    "+err:" + obs["err"] if "err" in obs else "")
         if "vo" not in obs:
             return next(iter(obs))
         return "clone%s post:%s" % ("-into" if case["into"] is not None else "",
                                     "0" if not case["post"] else ("1-4" if len(case["post"]) <= 4 else "5+"))
 
     def finding_of(self, case, obs):
-        if "vo" not in obs:
+        if case.get("kind") == "heap" or "vo" not in obs:
             return None
         # F-C11c: the original was lazy and never loaded a base conf level whose file holds data
         if case["init"].get("lazy"):
@@ -253,6 +420,12 @@ class C11(Prop):
         return None
 
     def shrink_candidates(self, case):
+        if case.get("kind") == "heap":
+            h = case["h0"]
+            for a, node in enumerate(h):
+                for i in range(len(node)):
+                    yield dict(case, h0=h[:a] + [node[:i] + node[i + 1:]] + h[a + 1:])
+            return
         for key in ("post", "pre"):
             ops = case[key]
             for i in range(len(ops)):
@@ -267,6 +440,10 @@ class C11(Prop):
             yield c
 
     def mutate(self, case, rng):
+        if case.get("kind") == "heap":
+            for _ in range(20):
+                yield gen_heap_case(rng)
+            return
         for _ in range(20):
             c = copy.deepcopy(case)
             if c["pre"] and rng.random() < 0.5:
